@@ -247,3 +247,19 @@ def _block_hash(it, key, raw, args):
     """ic_btc_types::Block::block_hash returns the injective id of the block model"""
     b = deref(args[0])
     return Ref(Cell(bh(b.fields[0].v.t)))
+
+
+# model of the dependency's `impl From<bitcoin::Network> for NetworkKind` (network.rs: Bitcoin -> Main, every other network -> Test);
+# bitcoin::Network variants are Bitcoin=0, Testnet=1, Testnet4=2, Signet=3, Regtest=4; NetworkKind is Main=0, Test=1
+def _network_kind_from_network(it, v):
+    from .interp import Agg
+    if not isinstance(v.variant, int):
+        raise Unsupported('NetworkKind::from of a network with a symbolic variant')
+    return Agg('NetworkKind', [], 0 if v.variant == 0 else 1)
+
+
+from .models_std import FROM_HOOKS as _FH
+from .interp import type_head as _th
+_FH[(_th('NetworkKind'), _th('bitcoin::Network'))] = _network_kind_from_network
+_FH[(_th('bitcoin::NetworkKind'), _th('bitcoin::Network'))] = _network_kind_from_network
+_FH[(_th('NetworkKind'), _th('Network'))] = _network_kind_from_network
